@@ -338,7 +338,8 @@ def register(reg):
                        ("I-state:state-is-a-ContextState", inv_state, ("g:ctx_init", "fld:_state")),
                        ("I-key:table-keys-match-containers", inv_key_R, CTXF + ("d_has", "d_get", "fld:name", "fld:types", "t_len", "t_item", "alloc")),
                        ("I-key:factory-keys-match-factories", inv_key_F, CTXF + ("d_has", "d_get", "fld:name", "fld:types", "t_len", "t_item", "alloc")),
-                       ("I-conv:container-registered-under-all-its-types", inv_conv, CTXF + ("d_has", "d_get", "fld:name", "fld:types", "t_len", "t_item", "alloc"))]
+                       ("I-conv:container-registered-under-all-its-types", inv_conv, CTXF + ("d_has", "d_get", "fld:name", "fld:types", "t_len", "t_item", "alloc"),
+                        {"lazy": True})]
     reg.guarantees += [("G-mono:tables-only-grow", g_mono, CTXF + ("d_has", "d_get")),
                        ("G-init:initialised-and-owned-stay-so", g_init, ("g:ctx_init", "g:owner")),
                        ("G-st:closed-is-monotone", g_closed, ("g:ctx_init", "fld:_state"))]
